@@ -39,7 +39,8 @@ SCOPE = ("all operation histories up to the depth bound over the finite menu (me
 
 
 def bounds(tier):
-    return {"grids": [U.spec_id(s) for s in _grids(tier)], "depth": _depth(tier), "slots": 2}
+    return {"grids": [U.spec_id(s) for s in _grids(tier)], "depth": _depth(tier), "slots": 2, "roots": ["init_default", "init_bc_passed", "init_int (periodic)"],
+            "tables": "initial-value form (10) x BC style (3) x value edit (5); boundary-face form (4) x coefficient edit (8); on all nine classes"}
 
 
 def _grids(tier):
